@@ -31,6 +31,9 @@ type FuncSpec struct {
 	Requires    []*Clause
 	Ensures     []*Clause
 	Modifies    []*CExpr
+	Preserves   []*Clause
+	MayGlobal   map[string]bool
+	GhostSets   []*GhostSet
 	HasModifies bool
 	ModAny      bool
 	Trusted     bool
@@ -41,6 +44,11 @@ type FuncSpec struct {
 	NoInline    bool
 	Opaque      bool // body unverified and contract assumed, e.g. unsafe code
 	Inline      bool
+}
+
+type GhostSet struct {
+	Loc, Val *CExpr
+	Src      string
 }
 
 type LoopSpec struct {
@@ -167,6 +175,28 @@ func loadSpecFile(path string, required bool) {
 			}
 			for _, part := range splitTop(rest, ',') {
 				curF.Modifies = append(curF.Modifies, parseCExpr(part, where))
+			}
+		case "preserves":
+			if curF == nil {
+				fatal("%s: preserves outside func", where)
+			}
+			labels, src := splitLabels(rest)
+			for _, part := range splitTop(src, ',') {
+				curF.Preserves = append(curF.Preserves, &Clause{Kind: "preserves", Labels: labels, E: parseCExpr(part, where), Src: strings.TrimSpace(part), Where: where})
+			}
+		case "ghostset":
+			// ghostset field(x) = expr : ghost assignment executed at function exit
+			eq := strings.Index(rest, " = ")
+			if eq < 0 || curF == nil {
+				fatal("%s: ghostset <loc> = <expr>", where)
+			}
+			curF.GhostSets = append(curF.GhostSets, &GhostSet{Loc: parseCExpr(rest[:eq], where), Val: parseCExpr(rest[eq+3:], where), Src: rest})
+		case "mayglobal":
+			if curF.MayGlobal == nil {
+				curF.MayGlobal = map[string]bool{}
+			}
+			for _, n := range strings.Split(rest, ",") {
+				curF.MayGlobal[strings.TrimSpace(n)] = true
 			}
 		case "pure":
 			curF.HasModifies = true
